@@ -344,7 +344,7 @@ Section More.
                    | BFiles _ parts _ _ => existsb (fun p => fst p =? MT_MODEL) parts
                    | BFrom _ => true
                    end
-    | OPull _ (Some v) => has_model_b (sv_manifest v)
+    | OPull _ (Some v) _ => has_model_b (sv_manifest v)
     | _ => true
     end.
   Definition ops_have_model (os : list op) : bool := forallb op_has_model os.
@@ -461,7 +461,7 @@ Section More.
   Lemma op_writes_model s o n m :
     Inv s -> HM s -> op_has_model o = true -> In (EWriteMan n (Readable m)) (effects size_of s o) -> has_model_b m = true.
   Proof.
-    intros HI Hs Ho. unfold effects. destruct o as [d c|q|a b|nn|nn sv|]; cbn [op_run].
+    intros HI Hs Ho. unfold effects. destruct o as [d c|q|a b|nn|nn sv ord|]; cbn [op_run].
     - (* blob *) unfold op_blob. destruct (bget (dhex d) s); cbn; [intros []|].
       assert (H := new_layer_ext (init s) 0 c). destruct (new_layer size_of (init s) 0 c). cbn in *. intros Hi. destruct (Ext_no_write _ _ _ _ H Hi).
     - (* create *) unfold op_create, op_create_gen.
